@@ -369,7 +369,9 @@ std::string resolvePath(const std::string &filename, const std::string &base)
             end = path.size();
         }
         auto segment = path.substr(start, end - start);
-        if ((segment == "..") && !segments.empty() && !segments.back().empty() && (segments.back() != "..")) {
+        if ((segment == "..") && !segments.empty() && (segments.back() == ".")) {
+            segments.back() = "..";
+        } else if ((segment == "..") && !segments.empty() && !segments.back().empty() && (segments.back() != "..")) {
             segments.pop_back();
         } else if ((segment != ".") || (start == 0)) {
             segments.push_back(segment);
